@@ -190,8 +190,11 @@ fn gen_block<B: ToTokens>(
                 // and allow them to be formatted by the custom field.
                 if let Some(ref fields) = args.fields {
                     fields.0.iter().all(|Field { ref name, .. }| {
-                        let first = name.first();
-                        first != name.last() || !first.iter().any(|name| name == &param)
+                        // Only a custom field whose whole name is the parameter
+                        // overrides it: a dotted name that merely begins (and
+                        // ends) with the parameter, such as `x.x`, is a
+                        // different field.
+                        name.len() > 1 || !name.first().iter().any(|name| name == &param)
                     })
                 } else {
                     true
